@@ -24,6 +24,7 @@ import (
 	"encoding/hex"
 	"encoding/json"
 	"fmt"
+	"math/big"
 	"os"
 	"path/filepath"
 	"sort"
@@ -40,6 +41,7 @@ import (
 	trtypes "github.com/Sifchain/sifnode/x/tokenregistry/types"
 	"github.com/cosmos/cosmos-sdk/codec"
 	sdk "github.com/cosmos/cosmos-sdk/types"
+	banktypes "github.com/cosmos/cosmos-sdk/x/bank/types"
 	"github.com/gogo/protobuf/proto"
 	abci "github.com/tendermint/tendermint/abci/types"
 )
@@ -451,11 +453,99 @@ func emitStores(out *Out, what string, a, b *sifapp.SifchainApp) {
 
 // ---- (a) histories ------------------------------------------------------------------------------
 
+// bigCollectionsHistory crosses the list-size thresholds of every exported collection (page limits 100 / 200,
+// dispensation's 20 records per run): 210 pools, 235+ liquidity providers, 120 margin positions, 210 prophecies,
+// 250 distribution records, 211 registry entries — small amounts, seven blocks.
+func bigCollectionsHistory(seed uint64, rng *Rng) *Pilot {
+	var extra []string
+	for i := 0; i < 205; i++ {
+		extra = append(extra, fmt.Sprintf("ctk%03d", i))
+	}
+	p := NewPilot("big-collections", seed, rng, GenesisOpts{NUsers: 231, ValPowers: []int64{10}, MarginPools: []string{"ceth"}, EpochSeconds: 3600, ExtraDenoms: extra}, 600)
+	adm := p.W.Admin
+	small := func(u *Acct, denom string, dec int64) {
+		m := clptypes.NewMsgCreatePool(u.Addr, clptypes.NewAsset(denom), uintOf(new(big.Int).Mul(big.NewInt(int64(10+rng.Intn(20))), pow10(18))), uintOf(new(big.Int).Mul(big.NewInt(int64(10+rng.Intn(20))), pow10(dec))))
+		p.Tx("clp.create.small", u, &m)
+	}
+	usable := p.W.Users[:len(p.W.Users)-1]
+	// 1: pools
+	p.Begin()
+	for i, t := range tokens {
+		small(p.W.Users[2+i], t.Denom, t.Decimals)
+	}
+	for i, d := range extra {
+		small(p.W.Users[i%2], d, 18)
+	}
+	p.End()
+	// 2: every account becomes a provider of the ceth pool (and some of a second pool)
+	p.Begin()
+	for i, u := range usable {
+		m := clptypes.NewMsgAddLiquidity(u.Addr, clptypes.NewAsset("ceth"), uintOf(new(big.Int).Mul(big.NewInt(int64(1+rng.Intn(5))), pow10(17))), uintOf(new(big.Int).Mul(big.NewInt(int64(1+rng.Intn(5))), pow10(17))))
+		p.Tx("clp.add.small", u, &m)
+		if i%9 == 0 {
+			m2 := clptypes.NewMsgAddLiquidity(u.Addr, clptypes.NewAsset("cusdc"), uintOf(pow10(17)), uintOf(big.NewInt(100000)))
+			p.Tx("clp.add.small", u, &m2)
+		}
+	}
+	p.End()
+	// 3: margin positions
+	p.Begin()
+	params := p.C.App.MarginKeeper.GetParams(p.C.Ctx())
+	np := params
+	np.EpochLength = 1
+	np.MaxOpenPositions = 100000
+	mp := margintypes.MsgUpdateParams{Signer: adm.Addr.String(), Params: &np}
+	p.Tx("margin.updateparams.epoch1", adm, &mp)
+	for i := 0; i < 120; i++ {
+		u := usable[rng.Intn(len(usable))]
+		m := margintypes.MsgOpen{Signer: u.Addr.String(), CollateralAsset: "rowan", CollateralAmount: uintOf(new(big.Int).Mul(big.NewInt(int64(1+rng.Intn(3))), pow10(16))),
+			BorrowAsset: "ceth", Position: margintypes.Position_LONG, Leverage: sdk.MustNewDecFromStr("2.0")}
+		p.Tx("margin.open.small", u, &m)
+	}
+	p.End()
+	// 4: prophecies (one validator holds all the power: each claim completes its prophecy)
+	p.Begin()
+	for i := 0; i < 210; i++ {
+		p.nonce++
+		p.claim(0, p.nonce, usable[rng.Intn(len(usable))].Addr, int64(1+rng.Intn(50)), "bridge.claim.single")
+	}
+	p.End()
+	// 5: distribution records
+	p.Begin()
+	for k := 0; k < 5; k++ {
+		d := usable[10+k]
+		runner := usable[20+k]
+		var outs []banktypes.Output
+		for i := 0; i < 50; i++ {
+			outs = append(outs, banktypes.NewOutput(usable[(k*50+i)%len(usable)].Addr, sdk.NewCoins(coin("rowan", new(big.Int).Mul(big.NewInt(int64(1+rng.Intn(9))), pow10(16))))))
+		}
+		cm := disptypes.NewMsgCreateDistribution(d.Addr, disptypes.DistributionType_DISTRIBUTION_TYPE_AIRDROP, outs, runner.Addr.String())
+		if r := p.Tx("disp.create.50", d, &cm); r.Code == 0 {
+			p.dists = append(p.dists, distRef{name: fmt.Sprintf("%d_%s", p.Height(), d.Addr.String()), typ: disptypes.DistributionType_DISTRIBUTION_TYPE_AIRDROP, runner: runner})
+		}
+	}
+	p.End()
+	// 6, 7: some of it paid, hooks running
+	for b := 0; b < 2; b++ {
+		p.Begin()
+		for _, d := range p.dists[:2] {
+			rm := disptypes.NewMsgRunDistribution(d.runner.Addr.String(), d.name, d.typ, 20)
+			p.Tx("disp.run.20", d.runner, &rm)
+		}
+		p.End()
+	}
+	return p
+}
+
 func roundTripHistory(out *Out, rng *Rng, idx int, obs map[string]int) {
-	cdc := sifapp.MakeTestEncodingConfig().Marshaler
 	seed := rng.U64() % 1000000
 	blocks := 12 + rng.Intn(40)
-	p := mainHistory(seed, rng, blocks)
+	roundTripPilot(out, mainHistory(seed, rng, blocks), idx, obs)
+}
+
+// roundTripPilot: export the pilot's chain, import it, export again; compare sections, queries and stores.
+func roundTripPilot(out *Out, p *Pilot, idx int, obs map[string]int) {
+	cdc := sifapp.MakeTestEncodingConfig().Marshaler
 	what := "export"
 	secA, heightA, stateA, err := exportSections(p.C.App)
 	if err != nil {
@@ -478,8 +568,10 @@ func roundTripHistory(out *Out, rng *Rng, idx int, obs map[string]int) {
 	for _, pl := range p.pools() {
 		pools = append(pools, pl.ExternalAsset.Symbol)
 	}
-	for _, u := range p.W.Users {
-		addrs = append(addrs, u.Addr.String())
+	for i, u := range p.W.Users {
+		if i < 14 || i == len(p.W.Users)-1 {
+			addrs = append(addrs, u.Addr.String())
+		}
 	}
 	var dists []string
 	for _, d := range p.dists {
@@ -510,6 +602,8 @@ func init() {
 		for i := 0; i < n; i++ {
 			roundTripHistory(out, rng, i, obs)
 		}
+		// one history that crosses the size thresholds of every exported collection
+		roundTripPilot(out, bigCollectionsHistory(rng.U64()%1000000, rng), n, obs)
 		for i := 0; i < 3*n; i++ {
 			roundTripDocument(out, rng, i, obs)
 		}
